@@ -171,7 +171,7 @@ def main(ck):
     if stmt_bin is None:
         ck.broken.append("harness-build")
         ck.finish(evaluations=0, distinct_nontrivial=0, rule="harness did not build")
-    ck.prove(deps=["Lexer", "gen", "C18", "C04", "Stmt"], extra_targets=["Stmt/Model.vo", "Stmt/Run.vo", "Stmt/Proofs.vo"])
+    ck.prove(deps=["Lexer", "gen", "C18", "C04", "Stmt"], extra_targets=["Stmt/Model.vo", "Stmt/Run.vo", "Stmt/Proofs.vo", "Stmt/Complete.vo", "Stmt/Theorems.vo"])
     ck.log("proofs checked")
     quick = ck.tier == "quick"
 
@@ -440,10 +440,18 @@ def main(ck):
         sbad = ck.eval_cases("stmt", stmttie.HEADER, sterms, "check_case", shard=max(1, len(sterms) // 16 + 1))
         stie["cases"] = len(sterms)
         for j, cls in sorted(sbad.items(), key=lambda kv: len(ssrcs[sidx[kv[0]]])):
+            src, o = ssrcs[sidx[j]], souts[sidx[j]]
+            if 2 in cls:
+                # the accepted-is-complete clause on the REAL parser's own tree
+                stie["accepted_incomplete"] = stie.get("accepted_incomplete", 0) + 1
+                ck.violation("accepted-incomplete", {"case": {"text": src}, "impl_out": {"tree": o.get("tree")},
+                                                     "clause": "the real parser accepted a program whose tree has a missing operand or clause (nil)"})
+            cls = [x for x in cls if x != 2]
             if 9 in cls:
                 stie["unsup"] += 1
                 continue
-            src, o = ssrcs[sidx[j]], souts[sidx[j]]
+            if not cls:
+                continue
             ck.broken.append("correspondence:C01.statements")
             ck.violation("stmt-tie", {"case": {"text": src}, "impl_out": {k: o.get(k) for k in ("tree", "perr", "panic")},
                                       "clause": "statement model != real parser (program tree / error)"})
